@@ -123,6 +123,12 @@ ensures
             || (old(self).cond_votes(block_hash) && !old(self).cond_parent(block_hash)))
             ==> final(self).pending_safe_to_notar@ == old(self).pending_safe_to_notar@,
         r == SafeToNotarStatus::MissingBlock ==> old(self).cond_votes(block_hash) && !old(self).parents@.contains_key(block_hash),
+        // [C06.examined_block_satisfies_the_completeness_invariant] after the examination the block is signalled, or on the waiting list
+        // for exactly what it still lacks
+        (old(self).sent_safe_to_notar@.contains(block_hash) ==> old(self).cond_votes(block_hash) && old(self).cond_parent(block_hash) && !old(self).own_none())
+            ==> final(self).inv_b(block_hash, false),
+        // ... and nothing changes for any other block
+        forall|g: BlockHash, e: bool| g != block_hash ==> #[trigger] final(self).inv_b(g, e) == old(self).inv_b(g, e),
         // frame
         final(self).votes == old(self).votes,
         final(self).voted_stakes == old(self).voted_stakes,
@@ -147,6 +153,10 @@ ensures
         final(self).pending_safe_to_notar == old(self).pending_safe_to_notar,
         final(self).sent_safe_to_notar == old(self).sent_safe_to_notar,
         final(self).sent_safe_to_skip == old(self).sent_safe_to_skip,
+        // (the completeness invariant of safe-to-notar does not read what this function changes)
+        final(self).voted_stakes.notar == old(self).voted_stakes.notar && final(self).voted_stakes.skip == old(self).voted_stakes.skip,
+        old(self).s2n_inv(false) ==> final(self).s2n_inv(false),
+        old(self).s2n_inv(true) ==> final(self).s2n_inv(true),
         r.1@.len() == 0 && r.2@.len() == 0,
         // [C03.final_cert_exactly_when_due]
         r.0@.len() <= 1,
@@ -162,6 +172,8 @@ before `self.voted_stakes.finalize += stake;`
         proof { pre.lemma_room_for_pending(Pending::Final(pv)); }
 after `self.voted_stakes.finalize += stake;`
         proof {
+            assert forall|g: BlockHash, e: bool| #[trigger] self.inv_b(g, e) == pre.inv_b(g, e) by {}
+            assert forall|e: bool| pre.s2n_inv(e) implies self.s2n_inv(e) by { assert forall|g: BlockHash| #[trigger] self.inv_b(g, e) by { assert(pre.inv_b(g, e)); } }
             Self::lemma_wf_after_count(&pre, &*self, Pending::Final(pv));
             self.lemma_counted_is_stored();
         }
@@ -200,6 +212,9 @@ ensures
         has_kind(r.0@, CertKind::Skip) <==> r.0@.len() == 1,
         // [C06.events_only_when_allowed_and_once]
         events_ok(old(self), final(self), r.1@),
+        // [C06.completeness_invariant_is_kept] (a skip vote arriving last)
+        old(self).s2n_inv(false) ==> final(self).s2n_inv(false),
+        old(self).s2n_inv(true) ==> final(self).s2n_inv(true),
 before `if fallback {`
         let ghost pre = *self;
         let ghost pv = choose|v: int| 0 <= v < pre.nv() && stake.0 == pre.stakes()[v]
@@ -214,6 +229,25 @@ before `let mut verif_it`
             self.lemma_bounds(Pending::Nothing);
         }
         let ghost mid = *self;
+        proof {
+            // skip stake only grows: the vote conditions of every block can only get closer to holding; nothing else moves
+            assert(mid.voted_stakes.notar@ == pre.voted_stakes.notar@ && mid.voted_stakes.skip.0 >= pre.voted_stakes.skip.0);
+            assert forall|g: BlockHash| pre.cond_votes(g) implies #[trigger] mid.cond_votes(g) by {
+                let n = Self::map_stake(pre.voted_stakes.notar@, g);
+                assert((n + mid.voted_stakes.skip.0) * 100 >= (n + pre.voted_stakes.skip.0) * 100) by (nonlinear_arith)
+                    requires mid.voted_stakes.skip.0 >= pre.voted_stakes.skip.0 {}
+            }
+            assert forall|e: bool, g: BlockHash| pre.s2n_inv(e) && !pre.pending_safe_to_notar@.contains(g) implies #[trigger] mid.inv_b(g, e) by {
+                assert(pre.inv_b(g, e));
+                assert(mid.weakest(g) == pre.weakest(g));
+                if mid.cond_votes(g) { assert(mid.weakest(g)); }
+            }
+            assert(pre.s2n_inv(false) ==> pre.s2n_inv(true)) by {
+                if pre.s2n_inv(false) { assert forall|g: BlockHash| #[trigger] pre.inv_b(g, true) by { assert(pre.inv_b(g, false)); } }
+            }
+            assert forall|g: BlockHash| pre.s2n_inv(true) && #[trigger] mid.sent_safe_to_notar@.contains(g)
+                implies mid.cond_votes(g) && mid.cond_parent(g) && !mid.own_none() by { assert(pre.inv_b(g, true)); }
+        }
 loop 0
         invariant
             mid.wf(), self.bounds_ok(),
@@ -228,6 +262,12 @@ loop 0
             forall|h: BlockHash| verif_it.rest().contains(h) ==> #[trigger] mid.pending_safe_to_notar@.contains(h),
             forall|h: BlockHash| #[trigger] mid.pending_safe_to_notar@.contains(h) && !verif_it.rest().contains(h)
                 ==> self.sent_safe_to_notar@.contains(h) || !mid.spec_s2n(h),
+            // the completeness invariant holds for every block that is not still ahead
+            pre.pending_safe_to_notar@ == mid.pending_safe_to_notar@,
+            forall|e: bool, g: BlockHash| pre.s2n_inv(e) && !verif_it.rest().contains(g) ==> #[trigger] self.inv_b(g, e),
+            pre.s2n_inv(false) ==> pre.s2n_inv(true),
+            forall|g: BlockHash| pre.s2n_inv(true) && #[trigger] self.sent_safe_to_notar@.contains(g)
+                ==> self.cond_votes(g) && self.cond_parent(g) && !self.own_none(),
         ensures
             verif_it.rest().len() == 0,
         decreases verif_it.rest().len(),
@@ -254,7 +294,32 @@ after `let hash = match verif_it.next() { Some(x) => x, None => break };`
                 }
             }
         }
+before `match self.check_safe_to_notar(hash.clone()) {`
+        let ghost bef = *self;
+blockend `let hash = match verif_it.next() { Some(x) => x, None => break };`
+        proof {
+            assert forall|e: bool, g: BlockHash| pre.s2n_inv(e) && !verif_it.rest().contains(g) implies #[trigger] self.inv_b(g, e) by {
+                if g == hash { assert(self.inv_b(hash, false)); }
+                else { if rest0.contains(g) { let k = choose|k: int| 0 <= k < rest0.len() && rest0[k] == g; assert(k > 0); assert(verif_it.rest()[k - 1] == g); } assert(!rest0.contains(g)); assert(bef.inv_b(g, e)); }
+            }
+            assert forall|g: BlockHash| pre.s2n_inv(true) && #[trigger] self.sent_safe_to_notar@.contains(g)
+                implies self.cond_votes(g) && self.cond_parent(g) && !self.own_none() by {
+                if g == hash { assert(self.inv_b(hash, false)); } else { assert(bef.sent_safe_to_notar@.contains(g)); }
+            }
+        }
+before `continue;`
+        proof {
+            assert forall|e: bool, g: BlockHash| pre.s2n_inv(e) && !verif_it.rest().contains(g) implies #[trigger] self.inv_b(g, e) by {
+                if g != hash { if rest0.contains(g) { let k = choose|k: int| 0 <= k < rest0.len() && rest0[k] == g; assert(k > 0); assert(verif_it.rest()[k - 1] == g); } assert(!rest0.contains(g)); }
+            }
+        }
 before `let total_skip_stake = self.voted_stakes.skip + self.voted_stakes.skip_fallback;`
+        let ghost aft = *self;
+        proof {
+            assert forall|e: bool| pre.s2n_inv(e) implies aft.s2n_inv(e) by {
+                assert forall|g: BlockHash| #[trigger] aft.inv_b(g, e) by { assert(!verif_it.rest().contains(g)); }
+            }
+        }
         proof {
             Self::lemma_wf_transfer(&mid, &*self, Pending::Nothing); self.lemma_counted_is_stored();
             // [C06.skip_vote_arriving_last_raises_every_waiting_signal] "raised as soon as all of its conditions hold, whichever of them - a
@@ -279,7 +344,8 @@ after `let sf_votes = self.votes.skip_fallback_votes();`
             else { lemma_positive_sum_nonempty(self.stakes(), n, self.votes.p_skip_fb()); }
         }
 before `(new_certs, votor_events, blocks_to_repair)`
-        proof { Self::lemma_wf_transfer(&mid, &*self, Pending::Nothing); if new_certs@.len() == 1 { assert(new_certs@[0].kind() == CertKind::Skip); } }
+        proof { assert forall|g: BlockHash, e: bool| #[trigger] self.inv_b(g, e) == aft.inv_b(g, e) by {}
+                Self::lemma_wf_transfer(&mid, &*self, Pending::Nothing); if new_certs@.len() == 1 { assert(new_certs@[0].kind() == CertKind::Skip); } }
 @*/
 /*@ extract src/consensus/pool/slot_state.rs :: impl SlotState/fn count_notar_fallback_stake
 props C03 C04
@@ -297,6 +363,10 @@ ensures
         final(self).pending_safe_to_notar == old(self).pending_safe_to_notar,
         final(self).sent_safe_to_notar == old(self).sent_safe_to_notar,
         final(self).sent_safe_to_skip == old(self).sent_safe_to_skip,
+        // (the completeness invariant of safe-to-notar does not read what this function changes)
+        final(self).voted_stakes.notar == old(self).voted_stakes.notar && final(self).voted_stakes.skip == old(self).voted_stakes.skip,
+        old(self).s2n_inv(false) ==> final(self).s2n_inv(false),
+        old(self).s2n_inv(true) ==> final(self).s2n_inv(true),
         r.1@.len() == 0 && r.2@.len() == 0,
         // [C03.notar_fallback_cert_exactly_when_due]
         r.0@.len() <= 1,
@@ -313,6 +383,8 @@ before `let nf_stake = {`
         proof { pre.lemma_room_for_pending(Pending::NotarFallback(pv, *block_hash)); }
 before `let notar_stake = self`
         proof {
+            assert forall|g: BlockHash, e: bool| #[trigger] self.inv_b(g, e) == pre.inv_b(g, e) by {}
+            assert forall|e: bool| pre.s2n_inv(e) implies self.s2n_inv(e) by { assert forall|g: BlockHash| #[trigger] self.inv_b(g, e) by { assert(pre.inv_b(g, e)); } }
             Self::lemma_wf_after_count(&pre, &*self, Pending::NotarFallback(pv, *block_hash));
             self.lemma_counted_is_stored();
             self.lemma_bounds(Pending::Nothing);
@@ -352,6 +424,9 @@ ensures
             && (r.0@[i].kind() == CertKind::Notar || r.0@[i].kind() == CertKind::NotarFallback || r.0@[i].kind() == CertKind::FastFinal),
         // [C06.events_only_when_allowed_and_once]
         events_ok(old(self), final(self), r.1@),
+        // [C06.completeness_invariant_is_kept] (a notarize vote arriving last)
+        old(self).s2n_inv(false) ==> final(self).s2n_inv(false),
+        old(self).s2n_inv(true) ==> final(self).s2n_inv(true),
 before `let notar_stake = {`
         let ghost pre = *self;
         let ghost pv = choose|v: int| 0 <= v < pre.nv() && stake.0 == pre.stakes()[v]
@@ -365,6 +440,18 @@ after `self.voted_stakes.top_notar = notar_stake.max(self.voted_stakes.top_notar
             self.lemma_bounds(Pending::Nothing);
         }
         let ghost mid = *self;
+        proof {
+            // counting touches the counters of this block only; its conditions can only get closer to holding
+            assert(Self::map_stake(mid.voted_stakes.notar@, *block_hash) == Self::map_stake(pre.voted_stakes.notar@, *block_hash) + stake.0);
+            assert forall|g: BlockHash| g != *block_hash implies Self::map_stake(mid.voted_stakes.notar@, g) == Self::map_stake(pre.voted_stakes.notar@, g) by {}
+            Self::lemma_inv_after_notar_count(&pre, &mid, *block_hash, stake.0 as int);
+        }
+before `if !self.sent_safe_to_skip#0`
+        let ghost aft = *self;
+        proof {
+            if pre.s2n_inv(false) { Self::lemma_inv_after_examining(&pre, &mid, &aft, *block_hash, false); }
+            if pre.s2n_inv(true) { Self::lemma_inv_after_examining(&pre, &mid, &aft, *block_hash, true); }
+        }
 before `let nf_stake = self`
         proof { Self::lemma_wf_transfer(&mid, &*self, Pending::Nothing); self.lemma_counted_is_stored(); self.lemma_bounds(Pending::Nothing); }
         let ghost mid2 = *self;
@@ -386,6 +473,7 @@ before `if self.epoch_info.epoch_info().is_strong_quorum(notar_stake)`
 before `(new_certs, votor_events, blocks_to_repair)`
         let ghost s3 = new_certs@;
         proof {
+            assert forall|g: BlockHash, e: bool| #[trigger] self.inv_b(g, e) == aft.inv_b(g, e) by {}
             assert(s2.len() <= s3.len() <= s2.len() + 1);
             assert(forall|i: int| 0 <= i < s2.len() ==> s3[i] == s2[i]);
             assert(s3.len() == s2.len() + 1 ==> s3[s2.len() as int].kind() == CertKind::FastFinal);
@@ -431,27 +519,37 @@ ensures
         forall|i: int| 0 <= i < r.0@.len() ==> final(self).cert_ok(#[trigger] r.0@[i]),
         // [C06.events_only_when_allowed_and_once]
         events_ok(old(self), final(self), r.1@),
+        // [C06.completeness_invariant_is_kept] THE "as soon as" CLAUSE: whichever vote arrives - another validator's notarize or skip
+        // vote, or the node's own - afterwards every block whose conditions hold has had its signal, and every block that still
+        // lacks votes, or only the own vote, is on the list that is re-examined when those arrive
+        old(self).s2n_inv(false) ==> final(self).s2n_inv(false),
 before `let slot = vote.slot();`
         let ghost pre = *self;
         let ghost gvote = vote;
         proof { pre.lemma_bounds(Pending::Nothing); }
 after `self.votes.notar[v] = Some(notar_vote);`
-        proof { Self::lemma_wf_after_store(&pre, &*self, gvote); }
+        proof { Self::lemma_wf_after_store(&pre, &*self, gvote); if pre.s2n_inv(false) { Self::lemma_inv_after_store(&pre, &*self, gvote); } }
 after `let res = self.votes.notar_fallback[v].insert(block_hash.clone(), nf_vote);`
-        proof { lemma_c04_expand(pre.votes.vv(gvote.spec_signer().0 as int), gvote.spec_kind()); Self::lemma_wf_after_store(&pre, &*self, gvote); }
+        proof { lemma_c04_expand(pre.votes.vv(gvote.spec_signer().0 as int), gvote.spec_kind()); Self::lemma_wf_after_store(&pre, &*self, gvote);
+                if pre.s2n_inv(false) { Self::lemma_inv_after_store(&pre, &*self, gvote); } }
 before `self.votes.skip[v] = Some(skip_vote);`
         proof { pre.lemma_room_for_skip_in_nos(gvote); }
 before `self.count_skip_stake(slot, voter_stake, false)`
-        proof { Self::lemma_wf_after_store(&pre, &*self, gvote); }
+        proof { Self::lemma_wf_after_store(&pre, &*self, gvote); if pre.s2n_inv(false) { Self::lemma_inv_after_store(&pre, &*self, gvote); } }
 after `self.votes.skip_fallback[v] = Some(sf_vote);`
-        proof { Self::lemma_wf_after_store(&pre, &*self, gvote); }
+        proof { Self::lemma_wf_after_store(&pre, &*self, gvote); if pre.s2n_inv(false) { Self::lemma_inv_after_store(&pre, &*self, gvote); } }
 after `self.votes.finalize[v] = Some(final_vote);`
-        proof { Self::lemma_wf_after_store(&pre, &*self, gvote); }
+        proof { Self::lemma_wf_after_store(&pre, &*self, gvote); if pre.s2n_inv(false) { Self::lemma_inv_after_store(&pre, &*self, gvote); } }
 before `if voter == self.epoch_info.own_id()`
         proof {
             self.lemma_bounds(Pending::Nothing);
         }
         let ghost mid = *self;
+        let ghost is_own = gvote.spec_signer() == pre.epoch_info.own_id;
+        proof {
+            // [C06.completeness_invariant_is_kept] after storing and counting the vote
+            assert(pre.s2n_inv(false) ==> mid.s2n_inv(is_own));
+        }
 loop 0
         invariant
             mid.wf(), self.bounds_ok(),
@@ -467,6 +565,10 @@ loop 0
             forall|h: BlockHash| verif_it.rest().contains(h) ==> #[trigger] mid.pending_safe_to_notar@.contains(h),
             forall|h: BlockHash| #[trigger] mid.pending_safe_to_notar@.contains(h) && !verif_it.rest().contains(h)
                 ==> self.sent_safe_to_notar@.contains(h) || !mid.spec_s2n(h),
+            // the completeness invariant: in full for every block no longer ahead, in its `e` form for the others
+            pre.s2n_inv(false) ==> mid.s2n_inv(true),
+            forall|g: BlockHash| pre.s2n_inv(false) && !verif_it.rest().contains(g) ==> #[trigger] self.inv_b(g, false),
+            forall|g: BlockHash| pre.s2n_inv(false) && verif_it.rest().contains(g) ==> #[trigger] self.inv_b(g, true),
         ensures
             verif_it.rest().len() == 0,
         decreases verif_it.rest().len(),
@@ -496,6 +598,8 @@ after `let hash = match verif_it.next() { Some(x) => x, None => break };`
         }
 before `(certs_created, votor_events, blocks_to_repair)`
         proof {
+            // (when the vote is not the node's own, nothing is left to re-examine)
+            assert(pre.s2n_inv(false) && !is_own ==> self.s2n_inv(false));
             Self::lemma_wf_transfer(&mid, &*self, Pending::Nothing);
             // [C06.own_vote_arriving_last_raises_every_waiting_signal] "raised as soon as all of its conditions hold, whichever of them
             // ... the node's own vote ... arrives last": once the own vote is stored and counted, no block on the waiting list whose
@@ -503,8 +607,56 @@ before `(certs_created, votor_events, blocks_to_repair)`
             assert(gvote.spec_signer() == pre.epoch_info.own_id ==> forall|h: BlockHash| #[trigger] mid.pending_safe_to_notar@.contains(h) && self.spec_s2n(h)
                 ==> self.sent_safe_to_notar@.contains(h));
         }
+after `let mut verif_it = self.pending_safe_to_notar.clone().into_iter();`
+        proof {
+            if pre.s2n_inv(false) {
+                assert(mid.s2n_inv(true));
+                assert forall|g: BlockHash| !verif_it.rest().contains(g) implies #[trigger] self.inv_b(g, false) by {
+                    assert(mid.inv_b(g, true));
+                    assert(verif_it.rest().to_set().contains(g) == mid.pending_safe_to_notar@.contains(g));
+                    assert(!mid.pending_safe_to_notar@.contains(g));
+                }
+                assert forall|g: BlockHash| verif_it.rest().contains(g) implies #[trigger] self.inv_b(g, true) by { assert(mid.inv_b(g, true)); }
+            }
+        }
+before `match self.check_safe_to_notar(hash.clone()) {`
+        let ghost bef = *self;
+blockend `let hash = match verif_it.next() { Some(x) => x, None => break };`
+        proof {
+            if pre.s2n_inv(false) {
+                assert(rest0.contains(hash));
+                assert(bef.inv_b(hash, true));
+                assert forall|g: BlockHash| !verif_it.rest().contains(g) implies #[trigger] self.inv_b(g, false) by {
+                    if g == hash { assert(self.inv_b(hash, false)); }
+                    else { if rest0.contains(g) { let k = choose|k: int| 0 <= k < rest0.len() && rest0[k] == g; assert(k > 0); assert(verif_it.rest()[k - 1] == g); } assert(!rest0.contains(g)); assert(bef.inv_b(g, false)); }
+                }
+                assert forall|g: BlockHash| verif_it.rest().contains(g) implies #[trigger] self.inv_b(g, true) by {
+                    let k = choose|k: int| 0 <= k < verif_it.rest().len() && verif_it.rest()[k] == g;
+                    assert(rest0[k + 1] == g); assert(rest0.contains(g)); assert(g != hash);
+                    assert(bef.inv_b(g, true));
+                }
+            }
+        }
+before `continue;`
+        proof {
+            if pre.s2n_inv(false) {
+                assert(rest0.contains(hash));
+                assert(self.inv_b(hash, true));
+                assert forall|g: BlockHash| !verif_it.rest().contains(g) implies #[trigger] self.inv_b(g, false) by {
+                    if g != hash { if rest0.contains(g) { let k = choose|k: int| 0 <= k < rest0.len() && rest0[k] == g; assert(k > 0); assert(verif_it.rest()[k - 1] == g); } assert(!rest0.contains(g)); }
+                }
+                assert forall|g: BlockHash| verif_it.rest().contains(g) implies #[trigger] self.inv_b(g, true) by {
+                    let k = choose|k: int| 0 <= k < verif_it.rest().len() && verif_it.rest()[k] == g;
+                    assert(rest0[k + 1] == g); assert(rest0.contains(g));
+                }
+            }
+        }
 blockend `let mut verif_it = self.pending_safe_to_notar.clone().into_iter();`
         proof {
+            if pre.s2n_inv(false) {
+                assert forall|g: BlockHash| #[trigger] self.inv_b(g, false) by { assert(!verif_it.rest().contains(g)); }
+                assert(self.s2n_inv(false));
+            }
             assert forall|h: BlockHash| #[trigger] mid.pending_safe_to_notar@.contains(h) && self.spec_s2n(h) implies self.sent_safe_to_notar@.contains(h) by {
                 assert(!verif_it.rest().contains(h));
                 assert(self.spec_s2n(h) == mid.spec_s2n(h));
@@ -524,6 +676,19 @@ ensures
         final(self).sent_safe_to_skip == old(self).sent_safe_to_skip,
         final(self).slot == old(self).slot,
         final(self).epoch_info == old(self).epoch_info,
+        // [C06.completeness_invariant_is_kept] (a block that is merely known is not yet eligible)
+        old(self).s2n_inv(false) ==> final(self).s2n_inv(false),
+before `self.parents .get_or_insert_with(hash,`
+        let ghost pre = *self;
+blockend `self.parents .get_or_insert_with(hash,`
+        proof {
+            if pre.s2n_inv(false) {
+                assert forall|g: BlockHash| #[trigger] self.inv_b(g, false) by {
+                    assert(pre.inv_b(g, false));
+                    assert(self.cond_parent(g) == pre.cond_parent(g));
+                }
+            }
+        }
 closure 0
         ret s: ParentStatus
         ensures s == ParentStatus::Known
@@ -551,8 +716,22 @@ ensures
         // [C06.s2n_as_soon_as_parent_certified]
         (final(self).spec_s2n(hash) && !old(self).sent_safe_to_notar@.contains(hash)) ==> r matches Some(Either::Left(_)),
         r matches Some(Either::Right(id)) ==> id == (final(self).slot, hash),
+        // [C06.completeness_invariant_is_kept] (the parent's certificate arriving last)
+        old(self).s2n_inv(false) ==> final(self).s2n_inv(false),
 before `let Some(parent_info) = self.parents.get_mut(&hash)`
+        let ghost pre = *self;
         proof { self.lemma_bounds(Pending::Nothing); }
+before `if self.sent_safe_to_notar.contains(&hash) {`
+        let ghost mid = *self;
+        proof {
+            if pre.s2n_inv(false) {
+                assert forall|g: BlockHash| g != hash implies #[trigger] mid.inv_b(g, false) by {
+                    assert(pre.inv_b(g, false));
+                    assert(mid.cond_parent(g) == pre.cond_parent(g));
+                }
+                assert(pre.inv_b(hash, false));
+            }
+        }
 @*/
 
 /*@ extract src/consensus/pool/slot_state.rs :: impl SlotState/fn add_cert
